@@ -47,60 +47,85 @@ def steps():
     return [("read", n) for n in READS] + [("seek", o) for o in SEEKS]
 
 
+def pre_steps():
+    """What may happen between prefetch() and readv(): nothing, one step, or seek(o)+read(n)."""
+    one = [(st,) for st in steps()]
+    two = [(("seek", o), ("read", n)) for o in SEEKS for n in READS]
+    return [()] + one + two
+
+
 def scenarios(tier):
     quick = tier == "quick"
-    sizes = [0, 9, 24] if quick else [0, 1, 7, 8, 9, 24, 30]
-    policies = [("full",), ("max", 3)] if quick else [("full",), ("max", 3), ("max", 1), ("short", 1, 2),
-                                                      ("short", 2, 3)]
-    mcs = [None, 1] if quick else [None, 1, 2, 3]
     chunks = [(o, n) for o in OFFS for n in LENS]
-    depth = 2 if quick else 3
+    chunks12 = [(o, n) for o in OFFS for n in (5, 12)]
     out = []
+
+    def add(size, pol, mc, prog, bound=1):
+        out.append({"size": size, "policy": pol, "mc": mc, "bound": bound, "prog": list(prog)})
+
+    def p1(size, pol, mc, depth):
+        for seq in enum.sequences(steps(), depth, 1):
+            if any(op[0] == "read" for op in seq):
+                add(size, pol, mc, [("prefetch",)] + list(seq))
+
+    if quick:
+        for size in (0, 9, 24):
+            for pol in ((("full",),) if size == 0 else (("full",), ("max", 3))):
+                for mc in (None, 1):
+                    p1(size, pol, mc, 2)
+                for ch in chunks:
+                    add(size, pol, None, [("readv", (ch,))])
+                for lst in itertools.product(chunks12, repeat=2):
+                    add(size, pol, None, [("readv", tuple(lst))])
+                if size == 0:
+                    continue
+                for pre in pre_steps():
+                    for ch in chunks12:
+                        add(size, pol, None, [("prefetch",)] + list(pre) + [("readv", (ch,))])
+                for pre in [(), (("read", 5),), (("read", 20),)]:
+                    for ch in chunks12:
+                        add(size, pol, 1, [("prefetch",)] + list(pre) + [("readv", (ch,))])
+        return out
+    sizes = [0, 1, 7, 8, 9, 24, 30]
+    policies = [("full",), ("max", 3), ("max", 1), ("short", 1, 2), ("short", 2, 3)]
     for size in sizes:
         for pol in policies:
-            # P1: prefetch then reads/seeks
-            for mc in mcs:
-                for seq in enum.sequences(steps(), depth, 1):
-                    if not any(op[0] == "read" for op in seq):
-                        continue
-                    out.append({"size": size, "policy": pol, "mc": mc, "bound": 1,
-                                "prog": [("prefetch",)] + list(seq)})
-            # P2: readv alone, every list of <=2 chunks
-            for k in (1, 2):
-                for lst in itertools.product(chunks, repeat=k):
-                    out.append({"size": size, "policy": pol, "mc": None, "bound": 1,
-                                "prog": [("readv", tuple(lst))]})
-            # P3: readv after prefetch (+ one step)
-            for mc in mcs[:2]:
-                for pre in [()] + [(st,) for st in steps()]:
+            for mc in (None, 1, 2, 3):
+                p1(size, pol, mc, 2)
+            for ch in chunks:
+                add(size, pol, None, [("readv", (ch,))])
+            for lst in itertools.product(chunks, repeat=2):
+                add(size, pol, None, [("readv", tuple(lst))])
+    for size in (9, 24, 30):
+        for pol in (("full",), ("max", 3), ("short", 2, 3)):
+            for mc in (None, 2):
+                for seq in itertools.product(steps(), repeat=3):
+                    if any(op[0] == "read" for op in seq):
+                        add(size, pol, mc, [("prefetch",)] + list(seq))
+    for size in (1, 7, 8, 9, 24, 30):
+        for pol in (("full",), ("max", 3), ("short", 2, 3)):
+            for mc in (None, 2):
+                for pre in pre_steps():
                     for ch in chunks:
-                        out.append({"size": size, "policy": pol, "mc": mc, "bound": 1,
-                                    "prog": [("prefetch",)] + list(pre) + [("readv", (ch,))]})
-    if not quick:
-        sub = [(o, n) for o in (0, 8, 20, 29) for n in (5, 12)]
-        for size in (9, 30):
-            for pol in (("full",), ("max", 3)):
-                for lst in itertools.product(sub, repeat=3):
-                    out.append({"size": size, "policy": pol, "mc": None, "bound": 1,
-                                "prog": [("readv", tuple(lst))]})
-                # prefetch + two steps + readv of two chunks, limited concurrency
-                for mc in (None, 2):
-                    for pre in itertools.product(steps(), repeat=2):
-                        for ch in sub:
-                            out.append({"size": size, "policy": pol, "mc": mc, "bound": 1,
-                                        "prog": [("prefetch",)] + list(pre) + [("readv", (ch,))]})
-        # deeper schedules (2 preemptions) on the small programs
-        for size in (9, 24):
-            for pol in (("full",), ("max", 3)):
-                for mc in (None, 1, 2):
-                    for st in steps()[:4]:
-                        out.append({"size": size, "policy": pol, "mc": mc, "bound": 2,
-                                    "prog": [("prefetch",), st]})
-                for ch in [(0, 12), (3, 8), (8, 5), (20, 12)]:
-                    out.append({"size": size, "policy": pol, "mc": None, "bound": 2,
-                                "prog": [("readv", (ch,))]})
-                    out.append({"size": size, "policy": pol, "mc": None, "bound": 2,
-                                "prog": [("prefetch",), ("readv", (ch,))]})
+                        add(size, pol, mc, [("prefetch",)] + list(pre) + [("readv", (ch,))])
+    sub = [(o, n) for o in (0, 8, 20, 29) for n in (5, 12)]
+    for size in (9, 30):
+        for pol in (("full",), ("max", 3)):
+            for lst in itertools.product(sub, repeat=3):
+                add(size, pol, None, [("readv", tuple(lst))])
+            for pre in pre_steps():
+                for lst in itertools.product(sub, repeat=2):
+                    add(size, pol, None, [("prefetch",)] + list(pre) + [("readv", tuple(lst))])
+    # two deviations on the small programs
+    for size in (9, 24):
+        for pol in (("full",), ("max", 3)):
+            for mc in (None, 1, 2):
+                for st in steps()[:4]:
+                    add(size, pol, mc, [("prefetch",), st], 2)
+            for ch in [(0, 12), (3, 8), (8, 5), (20, 12)]:
+                add(size, pol, None, [("readv", (ch,))], 2)
+                add(size, pol, None, [("prefetch",), ("readv", (ch,))], 2)
+                add(size, pol, 1, [("prefetch",), ("read", 5), ("readv", (ch,))], 2)
     return out
 
 
@@ -270,7 +295,7 @@ def run_scn(item, acc):
                         holder[0] = None
                         r = judge(scn, e, c)
                         return r[0] if r else None
-                    ok, keys = explore.confirm(body, ex.choices, jd, "preempt", SCHED_KW)
+                    ok, keys = explore.confirm(body, ex.choices, jd, "delay", SCHED_KW)
                     if not ok or keys[0] != key:
                         raise RuntimeError("NONDETERMINISM in C28 replay: %r vs %r" % (key, keys))
                 detail = dict(detail)
@@ -281,7 +306,7 @@ def run_scn(item, acc):
                     return True   # fails under the default schedule already: other schedules add nothing
             return False
 
-        res = explore.explore(body, scn["bound"], "preempt", cap=20000, on_exec=on_exec, sched_kw=SCHED_KW)
+        res = explore.explore(body, scn["bound"], "delay", cap=20000, on_exec=on_exec, sched_kw=SCHED_KW)
         acc.count("schedules", res.executions)
         acc.count("scenarios")
         acc.cmax("max_schedules_per_scenario", res.executions)
@@ -331,7 +356,7 @@ def replay(rec):
     body = make_body(scn, holder)
     kw = dict(SCHED_KW)
     kw["record_trace"] = True
-    ex = explore.replay(body, r["choices"], "preempt", kw)
+    ex = explore.replay(body, r["choices"], "delay", kw)
     ctx = holder[0]
     print("scenario:", jscn(scn))
     print("outcome:", ex.outcome, repr(ex.error)[:300] if ex.error else "")
